@@ -2,7 +2,8 @@
   JS.MetaEnv — the environment in which `check_schema` evaluates a draft's metaschema: the answers
   of this installation's `urllib.parse` on the finitely many URI questions that arise (REGENERATED:
   JS/Generated/MetaUrls.lean). No regular expression and no retrieval is ever needed for a
-  metaschema; set iteration order is taken to be insertion order (any permutation would do).
+  metaschema (the regex oracle is nevertheless total here, so that theorems stated under
+  `Spec.RegexTotal` apply); set iteration order is taken to be insertion order (any permutation would do).
 -/
 import JS.Drafts
 import JS.Generated.MetaUrls
@@ -21,7 +22,7 @@ def Draft.urinormTable : Draft → List (Str × Str)
 
 /-- the oracle answers for evaluating the metaschema of draft `d` -/
 def metaEnv (d : Draft) : Env where
-  reSearch _ _ := none
+  reSearch _ _ := some (some false)      -- never consulted: the metaschemas contain no `pattern`/`patternProperties`
   urljoin a b := lookupPair a b d.urljoinTable
   urldefrag u := lookupS u d.urldefragTable
   urinorm u := lookupS u d.urinormTable
